@@ -1063,7 +1063,8 @@ def check_base(run, model, ck, s, rng, source, per_base=3):
     if rc is not None and len(rc[2]) >= 2:
         check_respelling(run, model, ck, s, ref, n0, "combined", emit(rc[0]), rc[1])
         run.count("combined_steps:%d" % len(rc[2]))
-    if len(run.samples) < 6 and na >= 4 and nb >= 3 and applicable and len(s) < 160:
+    if len(run.samples) < 6 and na >= 4 and nb >= 3 and applicable and len(s) < 160 and \
+            applicable[0][0] not in [x.get("respelling") for x in run.samples] and emit(applicable[0][1][0]) != s:
         k, (ast2, perm) = applicable[0]
         run.samples.append({"s": s, "source": source, "respelling": k, "respelled": emit(ast2), "norm": n0})
 
